@@ -7,6 +7,7 @@ import TssVerif.Core.Ckd
 import TssVerif.Core.Primes
 import TssVerif.Core.Blame
 import TssVerif.Core.BlameEc
+import TssVerif.Core.BlameEc5
 import TssVerif.Core.BlameRs
 import TssVerif.Core.BlameSg
 import TssVerif.Core.BlameSg9
@@ -260,6 +261,21 @@ def run (op : String) (args : List String) : Option String :=
         | .pass _ => "pass"
         | .fail why c => "fail culprits=" ++ toString c ++ " " ++ why.replace " " "-")
     | _, _, _, _ => none
+  | "ec_rs_round5_fac", [noFac, ownIdx, ssid, ownNt, ownH1, ownH2, peers] =>
+    -- peers: `idx/N/fac proof parts` separated by `;`
+    let pPeer (s : String) : Option BlameEc.RsR4Peer :=
+      match s.splitOn "/" with
+      | [idx, n, fp] =>
+        match pDec idx, pNat n, pList pBytes fp with
+        | some idx, some n, some fp => some ⟨idx, n, fp⟩
+        | _, _, _ => none
+      | _ => none
+    match pDec ownIdx, pBytes ssid, pNat ownNt, pNat ownH1, pNat ownH2, (peers.splitOn ";").mapM pPeer with
+    | some ownIdx, some ssid, some nt, some h1, some h2, some peers =>
+      some ((BlameEc.rsRound5Fac Secp256k1.curve Sha512.sha512_256 Zk.cur (noFac == "1") ownIdx ssid nt h1 h2 peers).render fun
+        | none => "pass"
+        | some (c, why) => "fail culprits=" ++ toString c ++ " " ++ why.replace " " "-")
+    | _, _, _, _, _, _ => none
   | "engine2_trace", [proto, role, nOld, nNew, self, evs] =>
     match Engine2.findProto proto, pDec nOld, pDec nNew, pDec self with
     | some p, some nOld, some nNew, some self =>
